@@ -8,6 +8,15 @@ seeds 0..k-1 only for gauss / numpy based sampling the RNG seam cannot enumerate
                every object and every global parameter (floats by repr), also when decoded
                by a scenario freshly compiled from the same text; re-encoding gives the
                same bytes
+  compilations decode(encode(s)) by ANY compilation of the same program + options equals s: the
+               encoding compilation, one recompilation per iteration order of every identity-hashed
+               `set` created while the scenario is built (set_order_seam + explorer; the seam's
+               installation is asserted, 0 choice points = no such set), and fresh interpreters with
+               other PYTHONHASHSEEDs.  Compared: properties and params, the sampled values of the
+               random module-level globals seen by behaviours / monitors (x_ programs: 2..6 globals
+               with disjoint ranges reached only from behaviours / monitors / requirements / params
+               and mixtures), the requirements re-checked on the decoded sample, a simulation of the
+               decoded scene, and the replay of a recorded simulation on that compilation
   refusal      bytes of every other program, of the same text compiled with other options
                (mode2D, param override, an extra statement) and EVERY proper prefix of the
                encoding must raise SerializationError
@@ -574,7 +583,7 @@ def check_static(item):
     t0 = time.time()
     c0 = time.process_time()
     try:
-        scenA = compile_scenario(text, opts)
+        scenA = compile_first(text, opts)
         # the recompilation(s): one per iteration order of the identity-hashed sets used while the
         # scenario is constructed (a single one when there is no such set); the first serves as
         # "the recompiled scenario" of check_encoding
@@ -594,7 +603,8 @@ def check_static(item):
     pstate = {"seen": set(), "hangs": {}}
     encs, seen = [], set()
     for origin, encoded in scenes:
-        data = check_encoding(prog, scenA, scenB, origin, encoded, st, viol, do_faults=do_faults, pstate=pstate)
+        # (the cross-compilation programs add nothing to the byte-level fault enumeration: quick skips it for them)
+        data = check_encoding(prog, scenA, scenB, origin, encoded, st, viol, do_faults=do_faults and not (tier == "quick" and name.startswith("x_")), pstate=pstate)
         if res["sample"] is None and data is not None:
             res["sample"] = data.hex()
         # distinct (bytes, original) pairs for the other compilations
@@ -733,6 +743,13 @@ def compile_under_set_order(text, opts, chooser):
             if importlib.import_module(m).__dict__.get("set") is not seams.ScriptedSet:
                 raise HarnessError(f"set-order seam not installed in {m}")
         return compile_scenario(text, opts)
+
+
+def compile_first(text, opts):
+    """The encoding compilation: like compile_scenario, but any identity-hashed set used while the
+    scenario is built iterates in insertion order, so that it does not depend on memory addresses
+    (real address-ordered sets are what the fresh-process compilations exercise)."""
+    return compile_under_set_order(text, opts, lambda n: 0)
 
 
 def set_order_compilations(prog, tier, st):
@@ -1639,8 +1656,7 @@ def replay(ctx, case):
         viol = [v for v in r["violations"] if all(v[2].get(k) == case.get(k) for k in keys)]
     elif kind == "other-compilation":
         prog = _as_prog(case)
-        scenA = compile_scenario(prog[3], prog[5])
-        scenB = compile_scenario(prog[3], prog[5])
+        scenA = compile_first(prog[3], prog[5])
         origin, scene = _find_scene(scenA, prog[4], case["origin"], "thorough")
         snap, data, extra = encode_scene(scenA, scene, prog[5])
         st = new_stats()
@@ -1648,7 +1664,11 @@ def replay(ctx, case):
         viol = [v for v in viol if v[2].get("what") == case.get("what")]
     elif kind == "fresh-process":
         p = {"name": case["name"], "feature": case["feature"], "text": case["text"], "mode": case["mode"], "opts": case.get("opts") or {}, "encs": [case["enc"]] if case.get("enc") else []}
-        viol = [v for v in fresh_process((case["hashseed"], [p]))["violations"] if v[2].get("what") == case.get("what")]
+        # the order of a real set depends on memory addresses: try the recorded hash seed, then a few others
+        for hs in [case["hashseed"]] + [h for h in range(1, 9) if h != case["hashseed"]]:
+            viol = [v for v in fresh_process((hs, [p]))["violations"] if v[2].get("what") == case.get("what")]
+            if viol:
+                break
     elif kind == "foreign":
         prog = _as_prog(case)
         f = case["foreign"]
@@ -1662,8 +1682,8 @@ def replay(ctx, case):
         viol = [v for v in viol if v[2].get("variant") == case.get("variant") and bool(v[2].get("reverse")) == bool(case.get("reverse"))]
     else:
         prog = _as_prog(case)
-        scenA = compile_scenario(prog[3], prog[5])
-        scenB = compile_scenario(prog[3], prog[5])
+        scenA = compile_first(prog[3], prog[5])
+        scenB = compile_first(prog[3], prog[5])
         origin, scene = _find_scene(scenA, prog[4], case["origin"], "thorough")
         st = new_stats()
         check_encoding(prog, scenA, scenB, origin, encode_scene(scenA, scene), st, viol, do_faults=True, only=kind)
